@@ -122,6 +122,30 @@ func (s *verifConfIfaceSuite) live() []int {
 	return out
 }
 
+// see verifConfAbort in the snapstate driver
+func verifConfIfaceAbort(chg *state.Change) {
+	fresh := true
+	for _, t := range chg.Tasks() {
+		if t.Status() != state.DoStatus {
+			fresh = false
+		}
+	}
+	if fresh {
+		chg.Abort()
+		return
+	}
+	for _, t := range chg.Tasks() {
+		if t.Status() == state.DoneStatus {
+			t.SetStatus(state.UndoneStatus)
+		}
+	}
+	for _, t := range chg.Tasks() {
+		if !t.Status().Ready() {
+			t.SetStatus(state.HoldStatus)
+		}
+	}
+}
+
 func verifConfIfaceEnvInt(name string, def int) int {
 	if v := os.Getenv(name); v != "" {
 		if n, err := strconv.Atoi(v); err == nil {
@@ -182,7 +206,7 @@ func (s *verifConfIfaceSuite) TestVerifConflictsIfaceRun(c *C) {
 		s.caseN = i
 		for _, chg := range s.state.Changes() {
 			if !chg.IsReady() {
-				chg.Abort()
+				verifConfIfaceAbort(chg)
 			}
 			if !chg.IsReady() {
 				c.Fatalf("cannot retire change %s (%s)", chg.Kind(), chg.Status())
@@ -248,7 +272,7 @@ func (s *verifConfIfaceSuite) TestVerifConflictsIfaceRun(c *C) {
 						t.SetStatus(state.DoneStatus)
 					}
 				} else {
-					chg.Abort()
+					verifConfIfaceAbort(chg)
 				}
 				s.emit(c, "Progress", map[string]interface{}{"c": idx, "how": how}, nil, true)
 				continue
